@@ -11,9 +11,17 @@
   same width (same attribute set) — its rows need not occur in the training table — on any backend.
   Supports are arbitrary (they only order the queue).
 
-  Only property theorems live here; helper lemmas are in `Fca/Lemmas/Trace.lean`.
+  Many-valued contexts (`Trace.traceMV`, interval pattern structures — `IntervalPS` / `IntervalNumpyPS`):
+  hypothesis `Spec.IsMVTraceLatticeOf KTrain cs L`: the lattice is ANY list `cs` of genuine PATTERN concepts of
+  a well-formed interval training context (description = `intention_i(extent)`: per-column interval hull, `None`
+  for the empty extent, one entry per column in column order; extent = `extension_i(description)` as a set),
+  with its true cover relation and top.  The traced context `K` is any well-formed interval context with as
+  many columns (`Spec.IsTracedMVCtx`).  `SetPS` / `AttributePS` columns are NOT covered by the model `traceMV`.
+
+  Only property theorems live here; helper lemmas are in `Fca/Lemmas/Trace.lean` and `Fca/Lemmas/TraceMV.lean`.
 -/
 import Fca.Lemmas.Trace
+import Fca.Lemmas.TraceMV
 namespace Fca.C17
 open Fca Fca.Trace
 
@@ -120,14 +128,18 @@ theorem trace_monotone_refused (L : Lat) (hmono : L.isMonotone = true) (useIdx :
   · intro intents K; simp [traceFormal, traceContext, hmono]
   · intro intents K; simp [traceMV, traceContext, hmono]
 
-/-- **trace_any_context_partial** — the same two statements for ANY traced context (this is the form that
-    applies to many-valued contexts, `extOf c = MVContext.extension_i(intent of c)` as in `traceMV`): order
-    data with true covers over duplicate-free extents, and a context in which satisfaction is inherited
-    upward (`Spec.Upward`).  PARTIAL for many-valued contexts: `Spec.Upward` is a hypothesis here; for
-    `FormalContext`s it is proved (`upward_formal`, used above), for interval pattern structures it follows
-    from "intent = interval hull of the extent" (C13/C14) but that derivation is not mechanised — the
-    driver checks `Upward` on every explored many-valued case instead. -/
-theorem trace_any_context_partial (exts : List (List Nat)) (L : Lat) (hO : Spec.IsOrderData exts L)
+/-- **trace_any_context** — the generic form: the same statements for ANY traced context given as its
+    extension function `extOf c = context.extension_i(intent of c)`: order data with true covers over
+    duplicate-free extents, and a context in which satisfaction is inherited upward (`Spec.Upward`).
+    `Spec.Upward` is a hypothesis HERE, but it is discharged for both kinds of contexts the library ships
+    tracing for: for `FormalContext`s by `upward_formal` (every list of genuine formal concepts; used by
+    `trace_exact` / `trace_bottom_minimal` / `trace_keys`), and for many-valued contexts with interval pattern
+    structures by `upward_mv` (every list of genuine pattern concepts, ANY traced interval context; used by
+    `trace_mv_exact` / `trace_mv_bottom_minimal` / `trace_mv_keys` below).  Hence no `_partial` suffix: the
+    theorem is kept as the reusable statement about the worklist (what a further pattern structure with an
+    antitone `intention_i` would have to supply is exactly `Upward`), not as a substitute for a missing proof.
+    (`SetPS` / `AttributePS` columns are outside the model `traceMV`, see the header.) -/
+theorem trace_any_context (exts : List (List Nat)) (L : Lat) (hO : Spec.IsOrderData exts L)
     (hmono : L.isMonotone = false) (extOf : Nat → List Nat) (nObj : Nat) (names : List String)
     (hnames : names.length = nObj) (hext : ∀ i, ∀ g ∈ extOf i, g < nObj)
     (hup : Spec.Upward exts extOf) (useIdx : Bool) :
@@ -147,6 +159,90 @@ theorem trace_any_context_partial (exts : List (List Nat)) (L : Lat) (hO : Spec.
   rw [hSm i, mem_minimalOf]
   simp only [List.mem_filter, List.mem_range, List.contains_eq_mem, decide_eq_true_eq, and_imp]
 
+/-! ### many-valued contexts with interval pattern structures -/
+
+/-- **trace_mv_exact** — many-valued twin of `trace_exact`: for every list of genuine pattern concepts of an
+    interval training context (complete or pruned) with its true covers, and every well-formed interval context
+    `K` with as many columns (seen or unseen objects), every object `g` of `K` is mapped, under its key, to
+    exactly the set of pattern concepts whose description `g` satisfies (`Spec.mvDescribing`: `g` falls into
+    every column's interval; `None` is satisfied by nothing). -/
+theorem trace_mv_exact (KTrain : MVCtx) (cs : List (List Nat × Spec.MVDesc)) (L : Lat)
+    (hL : Spec.IsMVTraceLatticeOf KTrain cs L) (hmono : L.isMonotone = false)
+    (K : MVCtx) (hK : Spec.IsTracedMVCtx KTrain K) (useIdx : Bool) :
+    ∃ bottom traced, traceMV L (cs.map Prod.snd) K useIdx = .ok (bottom, traced) ∧
+      ∀ g, g < K.nObjects → ∃ T, traced[g]? = some (Spec.keyOf useIdx K.objNames g, T) ∧
+        ∀ i, i ∈ T ↔ i ∈ Spec.mvDescribing K (cs.map Prod.snd) g := by
+  have hO := IsMVTraceLatticeOf.orderData hL
+  obtain ⟨b, t, hok, _, _, hget⟩ := traceContext_spec hO K.objNames useIdx hmono hK.names
+    (ext_lt_mv (cs.map Prod.snd) K) (upward_mv hL K)
+  refine ⟨b, t, hok, ?_⟩
+  intro g hg
+  obtain ⟨S, T, _, hT, hTm, _⟩ := hget g hg
+  refine ⟨T, hT, ?_⟩
+  intro i
+  rw [hTm i, mem_mvDescribing]
+  simp only [List.length_map]
+
+/-- **trace_mv_bottom_minimal** — many-valued twin of `trace_bottom_minimal`: the bottom concepts of `g` are
+    exactly the minimal elements, w.r.t. the lattice order (strict inclusion of the training extents), of the
+    set of pattern concepts describing `g`. -/
+theorem trace_mv_bottom_minimal (KTrain : MVCtx) (cs : List (List Nat × Spec.MVDesc)) (L : Lat)
+    (hL : Spec.IsMVTraceLatticeOf KTrain cs L) (hmono : L.isMonotone = false)
+    (K : MVCtx) (hK : Spec.IsTracedMVCtx KTrain K) (useIdx : Bool) :
+    ∃ bottom traced, traceMV L (cs.map Prod.snd) K useIdx = .ok (bottom, traced) ∧
+      ∀ g, g < K.nObjects → ∃ S, bottom[g]? = some (Spec.keyOf useIdx K.objNames g, S) ∧
+        ∀ i, i ∈ S ↔ i ∈ Spec.mvMinimalDescribing K (cs.map Prod.fst) (cs.map Prod.snd) g := by
+  have hO := IsMVTraceLatticeOf.orderData hL
+  obtain ⟨b, t, hok, _, _, hget⟩ := traceContext_spec hO K.objNames useIdx hmono hK.names
+    (ext_lt_mv (cs.map Prod.snd) K) (upward_mv hL K)
+  refine ⟨b, t, hok, ?_⟩
+  intro g hg
+  obtain ⟨S, T, hS, _, _, hSm⟩ := hget g hg
+  refine ⟨S, hS, ?_⟩
+  have hdesc : ∀ i, (i < (cs.map Prod.fst).length ∧ g ∈ mvExtensionI K ((cs.map Prod.snd).getD i [])) ↔
+      i ∈ Spec.mvDescribing K (cs.map Prod.snd) g := by
+    intro i; rw [mem_mvDescribing]; simp only [List.length_map]
+  intro i
+  rw [hSm i]
+  unfold Spec.mvMinimalDescribing
+  rw [mem_minimalOf, hdesc i]
+  constructor
+  · rintro ⟨h1, h2⟩
+    refine ⟨h1, ?_⟩
+    intro d hd
+    have := (hdesc d).mpr hd
+    exact h2 d this.1 this.2
+  · rintro ⟨h1, h2⟩
+    refine ⟨h1, ?_⟩
+    intro d hd hgd
+    exact h2 d ((hdesc d).mp ⟨hd, hgd⟩)
+
+/-- **trace_mv_keys** — many-valued twin of `trace_keys`: both dictionaries have exactly one entry per object of
+    the traced context, in object order, keyed by object index when `use_object_indices` and by object name
+    otherwise.  Moreover no lookup behind the result can fail: every entry of every description addresses an
+    existing column of the traced context that has a cell for every object (so the model's total lookups never
+    fall back to a default where the real code would raise `IndexError`). -/
+theorem trace_mv_keys (KTrain : MVCtx) (cs : List (List Nat × Spec.MVDesc)) (L : Lat)
+    (hL : Spec.IsMVTraceLatticeOf KTrain cs L) (hmono : L.isMonotone = false)
+    (K : MVCtx) (hK : Spec.IsTracedMVCtx KTrain K) (useIdx : Bool) :
+    (∃ bottom traced, traceMV L (cs.map Prod.snd) K useIdx = .ok (bottom, traced) ∧
+      (useIdx = true → bottom.map Prod.fst = (List.range K.nObjects).map Key.idx ∧
+        traced.map Prod.fst = (List.range K.nObjects).map Key.idx) ∧
+      (useIdx = false → bottom.map Prod.fst = K.objNames.map Key.name ∧
+        traced.map Prod.fst = K.objNames.map Key.name)) ∧
+    (∀ i, i < cs.length → ∀ pd ∈ (cs.map Prod.snd).getD i [],
+      ∃ col, K.cols[pd.1]? = some col ∧ ∀ g, g < K.nObjects → ∃ cell, col[g]? = some cell) := by
+  have hO := IsMVTraceLatticeOf.orderData hL
+  obtain ⟨b, t, hok, hkb, hkt, _⟩ := traceContext_spec hO K.objNames useIdx hmono hK.names
+    (ext_lt_mv (cs.map Prod.snd) K) (upward_mv hL K)
+  refine ⟨⟨b, t, hok, ?_, ?_⟩, mv_lookups_total hL hK⟩
+  · intro hu; subst hu
+    rw [hkb, hkt]
+    exact ⟨rfl, rfl⟩
+  · intro hu; subst hu
+    rw [hkb, hkt, keys_names _ _ hK.names]
+    exact ⟨rfl, rfl⟩
+
 /-! ### non-vacuity: a pruned lattice of a concrete training table, traced on unseen rows -/
 
 private def exTrain : Table := ⟨[[true, false, true], [true, true, false], [false, true, true]], 3⟩
@@ -164,5 +260,31 @@ example : Spec.IsTraceLatticeOf exTrain exCs exL ∧ exK.table.WF ∧ exK.table.
       = .ok ([(Key.name "x", [3]), (Key.name "y", [0]), (Key.name "z", [1])],
              [(Key.name "x", [0, 1, 2, 3]), (Key.name "y", [0]), (Key.name "z", [0, 1])]) := by
   refine ⟨by decide, by decide, rfl, rfl, by rfl⟩
+
+/-! ### non-vacuity, many-valued: a pruned lattice of pattern concepts of a 2-column interval table -/
+
+/-- training objects: g0 = ([1,2],[0,0]), g1 = ([2,4],[1,1]), g2 = ([5,5],[0,3]) (columns listed) -/
+private def exMVTrain : MVCtx :=
+  { cols := [[(1, 2), (2, 4), (5, 5)], [(0, 0), (1, 1), (0, 3)]], nObjects := 3, objNames := ["a", "b", "c"] }
+/-- a pruned list of its 8 pattern concepts (extents listed in non-ascending order on purpose):
+    top {0,1,2}, {1,0}, {0}, bottom {} (description `None` in every column) -/
+private def exMVCs : List (List Nat × Spec.MVDesc) :=
+  [([0, 1, 2], [(0, some (1, 5)), (1, some (0, 3))]),
+   ([1, 0], [(0, some (1, 4)), (1, some (0, 1))]),
+   ([0], [(0, some (1, 2)), (1, some (0, 0))]),
+   ([], [(0, none), (1, none)])]
+private def exMVL : Lat :=
+  { children := [[1], [2], [3], []], supports := [3, 2, 1, 0], top := 0, isMonotone := false }
+/-- unseen rows: x inside the hull of {0,1} only, y equal to g0, z outside every hull, w inside the top only -/
+private def exMVK : MVCtx :=
+  { cols := [[(3, 3), (1, 2), (0, 9), (4, 5)], [(0, 1), (0, 0), (0, 0), (2, 2)]], nObjects := 4,
+    objNames := ["x", "y", "z", "w"] }
+
+example : Spec.IsMVTraceLatticeOf exMVTrain exMVCs exMVL ∧ exMVL.isMonotone = false ∧
+    Spec.IsTracedMVCtx exMVTrain exMVK ∧
+    traceMV exMVL (exMVCs.map Prod.snd) exMVK false
+      = .ok ([(Key.name "x", [1]), (Key.name "y", [2]), (Key.name "z", []), (Key.name "w", [0])],
+             [(Key.name "x", [0, 1]), (Key.name "y", [0, 1, 2]), (Key.name "z", []), (Key.name "w", [0])]) := by
+  refine ⟨by decide +kernel, rfl, by decide +kernel, by decide +kernel⟩
 
 end Fca.C17
